@@ -5,7 +5,12 @@ package psatoken
 
 import (
 	"bytes"
+	"crypto"
+	"crypto/ecdsa"
+	"crypto/ed25519"
 	"crypto/elliptic"
+	"crypto/rand"
+	"crypto/rsa"
 	"encoding/json"
 	"fmt"
 
@@ -142,6 +147,47 @@ func boundedDecodeNoPanic() (ok bool) {
 			return false
 		}
 		mutate(tok, coseIn)
+	}
+	// "verified against any key, again without panicking": tokens of three algorithm families against
+	// keys that are not well formed
+	{
+		_, edPriv, _ := ed25519.GenerateKey(rand.Reader)
+		rsaPriv, _ := rsa.GenerateKey(rand.Reader, 2048)
+		malformed := []struct {
+			name string
+			key  interface{}
+		}{{"nil interface", nil}, {"ed25519 nil", ed25519.PublicKey(nil)}, {"ed25519 31 bytes", ed25519.PublicKey(make([]byte, 31))}, {"ed25519 33 bytes", ed25519.PublicKey(make([]byte, 33))},
+			{"typed-nil *ecdsa.PublicKey", (*ecdsa.PublicKey)(nil)}, {"ecdsa without point", &ecdsa.PublicKey{Curve: elliptic.P256()}}, {"ecdsa without curve", &ecdsa.PublicKey{}},
+			{"typed-nil *rsa.PublicKey", (*rsa.PublicKey)(nil)}, {"rsa without modulus", &rsa.PublicKey{}}, {"a string", "key"}, {"an int", 7}}
+		for _, sg := range []struct {
+			alg cose.Algorithm
+			k   crypto.Signer
+		}{{cose.AlgorithmES256, k}, {cose.AlgorithmEd25519, edPriv}, {cose.AlgorithmPS256, rsaPriv}} {
+			csigner, err := cose.NewSigner(sg.alg, sg.k)
+			if err != nil {
+				return false
+			}
+			ev := &Evidence{}
+			if ev.SetClaims(sets[1]) != nil {
+				return false
+			}
+			tok, err := ev.ValidateAndSign(csigner)
+			if err != nil {
+				return false
+			}
+			dev, err := DecodeEvidenceFromCOSE(tok)
+			if err != nil {
+				return false
+			}
+			for _, mk := range malformed {
+				mk := mk
+				try(fmt.Sprintf("Evidence.Verify of an alg %d token with key <%s>", sg.alg, mk.name), tok, func() {
+					if dev.Verify(mk.key) == nil {
+						panic("verification succeeded with a malformed key")
+					}
+				})
+			}
+		}
 	}
 	for _, odd := range [][]byte{nil, {}, {0xf6}, {0xc6, 0xf6}, {0xa0}, {0x80}, {0xbf, 0xff}, {0xa1, 0x19, 0x09, 0x5f, 0x81, 0xf6}, {0xa1, 0x3a, 0x00, 0x01, 0x24, 0xfd, 0x81, 0xf6}} {
 		cborIn(odd)
